@@ -11,11 +11,13 @@ Inductive fobs : Type := FOk (aliases : list string) | FErr | FPanic.
 
 Inductive ccase : Type :=
 | PCase (doc : gdoc) (vars : jargs) (codes : list nat) (name kind : string) (flat : fobs)
-    (* codes: what graphql.Parse did over several runs (0 ok, perr code, 99 panic) *)
+    (* codes: what graphql.Parse did over several runs (0 ok, 1 client error, 2 other error, 99 panic) *)
 | BCase (doc : gdoc) (parse_visits prepare_visits : Z).
 
+(** The verdict is compared, never the wording of an error: 0 accepted, 1 client error, 99 crash
+    (2 = an error that is not a graphql.ClientError: the model has none). *)
 Definition outcome_code {A} (r : res A) : nat :=
-  match r with ROk _ => 0 | RErr e => code_of e | RCrash _ => 99 end.
+  match r with ROk _ => 0 | RErr _ => 1 | RCrash _ => 99 end.
 
 Definition nat_mem (n : nat) (l : list nat) : bool := existsb (Nat.eqb n) l.
 
@@ -40,7 +42,7 @@ Definition query_has_dirs (q : query) : bool :=
 
 Definition root_of (kind : string) : string := if String.eqb kind "mutation" then "Mutation" else "Query".
 
-(** Component codes: 1 verdict / error class, 2 query name and kind, 3 Flatten (aliases / error / panic),
+(** Component codes: 1 verdict (accepted / client error / crash), 2 query name and kind, 3 Flatten (aliases / error / panic),
     5 visits of detectConflicts, 6 calls of PrepareQuery, 7 model rejects a bomb the code accepted. *)
 Definition check_case (sch : schema) (c : ccase) : list nat :=
   match c with
